@@ -454,22 +454,6 @@ theorem both_fromCtrl (h : Both vx vy live q) (hph : Phase (key q)) :
     · rename_i rest hin
       exact absurd (by simp [hin]) hx.cj.1
 
-theorem startMigration_spec {q : Pmc} {r : MigReq} (hc : q.cur = some r) (hh : q.handling = false) :
-    startMigration q = ({ q with
-          pending := (↑(r.size / unit) : Int),
-          toPull := q.toPull ++ (mkPulls q.self r.peer r.rd r.wr q.nid (r.size / unit)).map (·.1),
-          map := q.map ++ (mkPulls q.self r.peer r.rd r.wr q.nid (r.size / unit)).map (fun x => (x.1.id, x.2)),
-          nid := q.nid + r.size / unit, handling := true, dones := 0,
-          plog := q.plog ++ mkPulls q.self r.peer r.rd r.wr q.nid (r.size / unit) }, true) := by
-  unfold startMigration
-  simp [hc, hh]
-
-theorem startMigration_idle {q : Pmc} (h : q.cur = none ∨ q.handling = true) : startMigration q = (q, false) := by
-  unfold startMigration
-  rcases h with h | h
-  · simp [h]
-  · cases hc : q.cur <;> simp [h]
-
 theorem both_startMigration (h : Both vx vy live q) :
     (startMigration q).1.fault = q.fault ∧ Both vx vy live (startMigration q).1 ∧
       Phase (key (startMigration q).1) := by
